@@ -41,3 +41,14 @@ package name
 //@     invariant forall k int :: 0 <= k && k < len(res) ==> tget(t, res[k]) != "" && (res[k] <= 25 || seen(t.Extra, res[k]))
 //@     invariant forall id uint16 :: (id <= 25 || seen(t.Extra, id)) && tget(t, id) != "" ==> exists k int :: 0 <= k && k < len(res) && res[k] == id
 //@     invariant forall a int :: forall b int :: 0 <= a && a < b && b < len(res) ==> res[a] != res[b]
+
+// nameBuilder.Add stores a string in the string storage of the "name" table
+// and returns its 16-bit offset and length; checked as an encoder: both must
+// be lossless (the format cannot address more than 64 KiB of string data).
+//@ func (nb *nameBuilder) Add(b []byte) (offs uint16, length uint16)   props: C14
+//@   encoder
+//@   requires nb != nil && nb.idx != nil
+//@   may_panic
+//@   requires forall s string :: has(nb.idx, s) ==> len(s) <= 65535   // strings stored earlier passed the same check
+//@   ensures length == len(b)
+//@   modifies nb.*, nb.idx[*], nb.data[*]
